@@ -1186,6 +1186,8 @@ class InertiaMoment(UnitBase):
             target_value = self.__value
 
         if inplace:
+            if target_value <= 0:
+                raise ValueError("Parameter 'value' must be positive.")
             self.__value = target_value
             self.__unit = target_unit
             return self
@@ -1845,9 +1847,15 @@ class TimeInterval(Time):
            >>> dt
            3600.0 sec
         """
-        converted = super().to(target_unit=target_unit, inplace=inplace)
+        if not isinstance(inplace, bool):
+            raise TypeError("Parameter 'inplace' must be a bool.")
+
+        converted = super().to(target_unit=target_unit, inplace=False)
 
         if inplace:
+            if converted.value <= 0:
+                raise ValueError("Parameter 'value' must be positive.")
+            super().to(target_unit=target_unit, inplace=True)
             self.__value = converted.value
             self.__unit = converted.unit
             return self
@@ -2052,6 +2060,8 @@ class Length(UnitBase):
             target_value = self.__value
 
         if inplace:
+            if target_value <= 0:
+                raise ValueError("Parameter 'value' must be positive.")
             self.__value = target_value
             self.__unit = target_unit
             return self
@@ -2251,6 +2261,8 @@ class Surface(UnitBase):
             target_value = self.__value
 
         if inplace:
+            if target_value <= 0:
+                raise ValueError("Parameter 'value' must be positive.")
             self.__value = target_value
             self.__unit = target_unit
             return self
